@@ -15,6 +15,7 @@ HYPOTHESES = ["HB4_hash"]
 NOT_YET_PROVED = []
 ASSUMPTIONS = ["published EIP-2333/Ethereum vectors cannot be fetched offline; two anchors typed from independent recollection are used"]
 nontrivial = nontrivial_default
+EXTRA_MODULES = {"Props.TieCodec": "PyEcc.Tie.", "Props.TieSwu": "PyEcc.Tie."}
 CHUNK = 4
 
 GEN_COMPRESSED = bytes.fromhex("97f1d3a73197d7942695638c4fa9ac0fc3688c4f9774b905a14e3a3f171bac586c55e83ff97a1aeffb3af00adb22c6bb")
@@ -43,6 +44,13 @@ def cases(rng, tier):
     cs.append(Case("bls.Aggregate", [tbl(sigs)]))
     cs.append(Case("bls.Aggregate", [tbl(sigs[:1])]))
     cs.append(Case("bls.Aggregate", [tbl([sigs[0], sigs[0]])]))
+    S0 = dec_g2(sigs[0])
+    cs.append(Case("bls.Aggregate", [tbl([sigs[0], enc_g2(O.phi(S0, O.BLS_P))])]))
+    cs.append(Case("bls.Aggregate", [tbl([sigs[0], enc_g2(O.phi(S0, O.BLS_P)), enc_g2(O.phi(O.phi(S0, O.BLS_P), O.BLS_P))])]))
+    from props.c11 import g2_special
+    for X in g2_special(None)[:2]:
+        cs.append(Case("bls.Aggregate", [tbl([enc_g2(X)])]))
+        cs.append(Case("bls.Aggregate", [tbl([sigs[0], enc_g2(X), enc_g2(O.aff_neg(X))])]))
     cs.append(Case("bls.Aggregate", [tbl([sigs[0], sigs[1], sigs[0]])]))
     return cs
 
@@ -118,6 +126,35 @@ def aggregate_spec_pred(sks, m):
     return (got == enc_g2(S), "Aggregate of a list containing the same signature twice != encoding of the group sum")
 
 
+def aggregate_special_pred(sk, m):
+    """Aggregate on well-formed signatures that are unusual as POINTS: S together with phi(S) = (beta x, y) (same y, other x) and
+    phi^2(S) (the three sum to the identity), and signatures whose x lies in the base field"""
+    from py_ecc.bls import G2Basic
+    from props.c11 import g2_special
+    S = dec_g2(G2Basic.Sign(sk, m))
+    S1, S2 = O.phi(S, O.BLS_P), O.phi(O.phi(S, O.BLS_P), O.BLS_P)
+    bad = []
+    for lst in ([S, S1], [S, S1, S2], [S1, S], [S, O.aff_neg(S1)]):
+        want = None
+        for X in lst:
+            want = O.aff_add(want, X)
+        got = G2Basic.Aggregate([enc_g2(X) for X in lst])
+        if got != enc_g2(want):
+            bad.append(f"Aggregate of {len(lst)} automorphism-related signatures != encoding of the group sum")
+    for X in g2_special(None)[:2]:
+        for lst in ([X], [X, O.aff_neg(X)], [S, X, O.aff_neg(X)]):
+            want = None
+            for Y in lst:
+                want = O.aff_add(want, Y)
+            try:
+                got = G2Basic.Aggregate([enc_g2(Y) for Y in lst])
+            except Exception as e:  # noqa: BLE001
+                got = f"raised {type(e).__name__}"
+            if got != enc_g2(want):
+                bad.append(f"Aggregate with a signature whose x lies in the base field / is purely imaginary: {str(got)[:40]}")
+    return (not bad, f"Aggregate on special points: {bad[:3]}")
+
+
 def tags_pred():
     from py_ecc.bls import G2Basic, G2MessageAugmentation, G2ProofOfPossession
     ok = (G2Basic.DST == DST["basic"] and G2MessageAugmentation.DST == DST["aug"] and G2ProofOfPossession.DST == DST["pop"]
@@ -134,7 +171,8 @@ def anchors_pred():
 def predicates(rng, tier, only=None):
     ps = [Pred("tags", tags_pred, ()), Pred("anchors", anchors_pred, ()),
           Pred("pop-sign-history", pop_sign_history_pred, (rng.randrange(1, O.BLS_R), rng.randrange(1, O.BLS_R))),
-          Pred("aggregate-spec", aggregate_spec_pred, ([rng.randrange(1, O.BLS_R) for _ in range(2)], b"agg"))]
+          Pred("aggregate-spec", aggregate_spec_pred, ([rng.randrange(1, O.BLS_R) for _ in range(2)], b"agg")),
+          Pred("aggregate-spec", aggregate_special_pred, (rng.randrange(1, O.BLS_R), b"special"))]
     ks, ms = good_keys(rng, tier), msgs(rng, tier)
     for sk in rng.sample(ks, 4 if tier == "quick" else len(ks)):
         ps.append(Pred("sktopk-spec", sktopk_spec_pred, (sk,)))
